@@ -106,8 +106,10 @@ func budgetOf(prop, tier string) budget {
 	q := budget{12000, 150 * time.Second}
 	t := budget{240000, 20 * time.Minute}
 	switch prop {
-	case "C03", "C19", "C10", "C20":
+	case "C03", "C19", "C20":
 		q.worlds, t.worlds = 8000, 160000
+	case "C10":
+		q.worlds, t.worlds = 6000, 120000 // every second world is executed twice (order independence)
 	}
 	if tier == "thorough" {
 		return t
